@@ -74,6 +74,8 @@ PROGRAMS = [
     # the previous value of a functional variable is read before it is reassigned: old and new value in one monomial
     ("old_and_new_value", "a = 0\ns = 0\ny = 0\nwhile true:\n    a = Bernoulli(1/2)\n    y = s*a\n    s = Sin(a)\nend\n", ["y*s", "y", "s", "y*s*a"]),
     ("old_value_in_condition", "a = 0\ns = 0\nc = 0\nwhile true:\n    a = Bernoulli(1/2)\n    if a == 1:\n        c = c + s\n    end\n    s = Cos(a)\nend\n", ["c", "c*s", "s"]),
+    # a functional variable computed in the initial block from a draw that the loop redraws (s stays what it was)
+    ("init_func_of_redrawn", "a = Bernoulli(1/2)\ns = Sin(a)\nx = 0\nwhile true:\n    a = Bernoulli(1/3)\n    x = x + a*s\nend\n", ["s", "x", "a*s"]),
     # conditioned functional assignments: in a branch, under the loop guard, nested, with a constant argument
     ("cond_exp_of_draw", "f = 0\ny = 0\nu = 0\ns = 0\nwhile true:\n    f = Bernoulli(1/2)\n    u = DiscreteUniform(0, 1)\n    if f == 1:\n        y = Exp(u)\n    end\n    s = s + y\nend\n",
      ["y", "s", "y*u", "y**2"]),
@@ -134,6 +136,9 @@ def program_part(ctx_run, quick):
     from ..driver import analysis_check
     items = [{"id": "fprog-" + name, "text": text, "T": None, "goals": goals, "points": [{}], "origin": "functional program " + name}
              for name, text, goals in PROGRAMS]
+    # one recurrence builder answers all goals of an analysis (as the CLI does): the same goals in the opposite order
+    items += [{"id": "fprog-" + name + "-rev", "text": text, "T": None, "goals": list(reversed(goals)), "points": [{}],
+               "origin": "functional program " + name + " (goals reversed)"} for name, text, goals in PROGRAMS]
     return items
 
 
